@@ -18,6 +18,21 @@ CHECKS = {
         "gf_vect_mul{,_base,_sse,_avx} for every multiple of 32 (= EC!VectMul) and non-zero return otherwise.",
    note="Trusted: TLC's evaluation of EC.tla; harness h_ec.c; documented kernel minimum lengths respected.",
    technique="TLA+ spec evaluated by TLC as oracle generator; spec-generated step-by-step behaviours replayed into every variant"),
+ "C04": dict(cat="exploration", ref="DESIGN.md §3 C04",
+   text="spec/Checksums.tla defines one parametric bit-serial CRC (tables derived inside the spec) with the 12 ISA-L parameter sets and Adler-32; published check values are ASSUMEd on every run. "
+        "TLC emits the checksum of every prefix of each message; the harness replays every variant (base, _00/_01/_02, by4, by8, by8_02, by16_10, dispatched, copy form, adler base/sse/avx2/bam1) for every len 0..N, "
+        "alignments, guard-page placements and every split point of selected lengths (composition). Exhaustive in (len<=N, placement) per message; messages/seeds sampled from VERIF_SEED.",
+   note="Trusted: TLC's evaluation of Checksums.tla; harness h_crc.c; seed conventions as documented in the headers.",
+   technique="TLA+ definitional spec evaluated by TLC as oracle generator; prefix-sharing vectors replayed into every variant"),
+ "C08": dict(cat="exploration", ref="DESIGN.md §3 C08",
+   text="spec/Raid.tla defines P and Q (Horner form, cross-checked against the sum-of-2^i*D_i definition and the two-erasure recovery lemma by TLC on every vector). Expected P/Q are replayed into every xor_gen/pq_gen variant "
+        "for every legal len with guard-page placements; xor_check/pq_check must accept the spec-consistent arrays and reject a single-byte corruption at every (block, position) for small len (sampled beyond); "
+        "below-minimum vects with all pointers inaccessible must return non-zero without a fault.",
+   note="Trusted: TLC's evaluation of Raid.tla; harness h_raid.c; documented alignment/length preconditions respected.",
+   technique="TLA+ spec evaluated by TLC as oracle generator + spec-level recovery lemma; vectors and corruption sweeps replayed into every variant"),
+ "C20": dict(cat="exploration", ref="DESIGN.md §3 C20",
+   text="Exhaustive sweep over (variant, len 0..N, alignment, position of a single non-zero byte, guard-page placement) of the zero-detect routine; aggregates per (variant, len) are judged by TLC against spec/MemZero.tla.",
+   note="Trusted: aggregation in h_mem.c; TLC.", technique="exhaustive enumeration of the implementation input space within N, judged by TLC against the TLA+ definition"),
  "C12": dict(cat="exploration", ref="DESIGN.md §3 C12",
    text="Exhaustive over the implementation's whole input space: all 65,536 gf_mul operand pairs, all 256 gf_inv operands and every byte of "
         "the table expansions of all 256 constants (gf_vect_mul_init, ec_init_tables_base, dispatched ec_init_tables, ec_init_tables_gfni) are "
